@@ -1,13 +1,16 @@
 (* Correspondence checker for C02: evaluated by vm_compute on generated case
    files.  Nothing here is a theorem.
 
-   agree: the implementation's observations are those of Model.C02_Model
-          (outputs incl. which item popitem returned and dict iteration order,
-          len, the three counters, on_miss calls, full views where taken);
+   agree: the implementation's observations are those of the pointer-level model
+          Model.C02_PtrCache (linked list as cells and pointers; proved equal to
+          the list-level Model.C02_Model by Proofs/C02_PtrSim.v) -- outputs incl.
+          which item popitem returned and dict iteration order, len, the three
+          counters, on_miss calls, full views where taken;
    holds: the implementation's observations are accepted by Spec.C02_Spec
           (reference cache; popitem any present item; iteration as a set);
    known: no open finding for C02. *)
-From Boltons Require Import Lib.Prelude Lib.C02_Syntax Spec.C02_Spec Model.C02_Model.
+From Boltons Require Import Lib.Prelude Lib.C02_Syntax Spec.C02_Spec Model.C02_Model
+  Model.C02_PtrModel Model.C02_PtrCache.
 
 (* on_miss of a case: a finite table with a default (the harness uses the same
    table in its recording on_miss function) *)
@@ -28,7 +31,7 @@ Definition case_cfg (k : c02_case) : cfg :=
 
 Definition c02_verdict (k : c02_case) : verdict :=
   let c := case_cfg k in
-  (agree_check c (k_init k) (k_steps k), spec_check c (k_init k) (k_steps k), false).
+  (pagree_check c (k_init k) (k_steps k), spec_check c (k_init k) (k_steps k), false).
 
 (* what the model computes, for replay files *)
 Definition c02_explain (k : c02_case) : list obs :=
